@@ -57,6 +57,10 @@ def valid_configs():
     # filesystem services with client authorisation (version 2): Tor writes one hostname line per client and a private_key
     out.append(dict(kind='fs', version=2, dir='explicit', auth='basic'))
     out.append(dict(kind='fs', version=2, dir='implicit', auth='stealth'))
+    # ... on a Tor that already runs an authenticated filesystem service of its own
+    out.append(dict(kind='fs', version=3, dir='explicit', auth=None, existing='authfs'))
+    out.append(dict(kind='fs', version=2, dir='implicit', auth='basic', existing='authfs'))
+    out.append(dict(kind='eph', version=3, key=None, single_hop=None, auth=None, existing='authfs'))
     return out
 
 
@@ -67,11 +71,27 @@ def run_listen(cfg, via, cfg_mode, ch, public_port=80):
         old_tmp = tempfile.tempdir
         tempfile.tempdir = workdir()
         try:
-            impl = CfgImpl(w, [('SocksPort', ['9050'])])
+            setup = None
+            old_dir = os.path.join(workdir(), 'hs-torrc')
+            if cfg.get('existing'):
+                # the Tor already runs a filesystem service with client authorisation (from its torrc)
+                shutil.rmtree(old_dir, ignore_errors=True)
+                os.makedirs(old_dir)
+                with open(os.path.join(old_dir, 'hostname'), 'w') as f:
+                    f.write('torrcclienthost1.onion cookiecookiecookiecooki # client: carol\n')
+                old_lines = ['HiddenServiceDir=%s' % old_dir, 'HiddenServicePort=22 127.0.0.1:2222', 'HiddenServiceVersion=2',
+                             'HiddenServiceAuthorizeClient=basic carol']
+
+                def setup(sim):
+                    sim.info['config/names'] = sorted(sim.info['config/names'] + ['HiddenServiceOptions Virtual'])
+                    sim.sticky['GETCONF HiddenServiceOptions'] = (250, [('line', x) for x in old_lines])
+            impl = CfgImpl(w, [('SocksPort', ['9050'])], setup=setup)
             sim = impl.sim
             sim.strict_conf = False
             if impl.boot != ['ok']:
                 return dict(viol=[('bootstrap', 'x', repr(impl.boot))], obs=('x',), log=log)
+            if cfg.get('existing') and len(impl.cfg.HiddenServices) != 1:
+                return dict(viol=[('harness-existing-service-not-seen', 'x', repr(list(impl.cfg.HiddenServices)))], obs=('x',), log=log)
             w.reactor.next_port = 49000
             hsdir = None
             if cfg['kind'] == 'fs' and cfg['dir'] == 'explicit':
@@ -276,7 +296,13 @@ def run_listen(cfg, via, cfg_mode, ch, public_port=80):
                         else:
                             try:
                                 items = kvline.parse(creating[0][len('SETCONF '):])
-                                target = [v for k, v in items if k == 'HiddenServicePort']
+                                # the HiddenServicePort lines of OUR directory (services Tor already had are listed too)
+                                target, cur = [], None
+                                for k, v in items:
+                                    if k == 'HiddenServiceDir':
+                                        cur = v
+                                    elif k == 'HiddenServicePort' and cur == the_dir:
+                                        target.append(v)
                             except Exception as e:
                                 target = 'unparsable: %r' % (e,)
                             want_t = ['%d 127.0.0.1:%d' % (public_port, p.port)]
